@@ -41,7 +41,7 @@ def run2(pairs_list, threads=False):
 
 def check(tier, seed):
     rng = random.Random(seed * 101 + 19)
-    n = 300 if tier == "quick" else 3000
+    n = 300 if tier == "quick" else 10000
     prof = dict(n_defs=(3, 9), n_txn=(2, 6), samples=0.4, drops=0.3, gcs=0.3, obs=0.0, intxn_defs=0.3,
                 weights=dict(accum=1.5, hold=3, lift2=2, defer=0.5, sloop=0.7, cloop=0.5, switchs=0.5, router=0.5))
     A = [descope(apigen.generate(rng, apigen.profile(**prof)) + ["nodes"]) for _ in range(n)]
